@@ -147,6 +147,7 @@ PROPS["C17"] = dict(
 )
 
 PROPS["C06"] = dict(
+    producers=[("pyvc.wrapper_check", "wrapper_items")],
     level="proof",
     technique="contract-based deductive verification (pyvc VCs -> z3): distance dispatch and compass bearing post-conditions; ghost-witness "
               "invariant of the real line sweep _process_proximity_line; the four-sweep glue _process._process_numpy (nested jitted closure, "
@@ -164,7 +165,7 @@ PROPS["C06"] = dict(
     timeout=200,
 )
 PROPS["C07"] = dict(
-    producers=[("pyvc.table_check", "call_items")],
+    producers=[("pyvc.table_check", "call_items"), ("pyvc.wrapper_check", "wrapper_items")],
     level="exploration",
     technique="bounded: chunked == whole-raster over random chunkings.  Contract-level obligations: halo / fallback arithmetic and the map_overlap call of _process_dask, "
               "chunk-aligned coordinate grids and the shared block function in _process (normalised-source checks), halo-width lemma (a target k cells away with "
@@ -178,7 +179,7 @@ PROPS["C07"] = dict(
 )
 
 PROPS["C14"] = dict(
-    producers=[("pyvc.table_check", "call_items")],
+    producers=[("pyvc.table_check", "call_items"), ("pyvc.wrapper_check", "wrapper_items")],
     level="proof",
     technique="contract-based: post-conditions / loop invariants on the real A* helpers (crossability, bounds, pixel distance, minimum-cost open cell, nearest crossable cell, path reconstruction), the search loop itself in two contracts of the same function (structural invariant: parents are closed crossable neighbours and distances add the step length; relaxation invariant: no cheaper route into an open cell is ever ignored) and the cell-lookup arithmetic lemma (pyvc VCs -> z3); optimality and existence bounded against Dijkstra",
     not_decided=["optimality of the returned route and 'route exists => found' (the relaxation invariant is the local half; the global half needs a shortest-path ghost over all routes and a consistent-heuristic argument): bounded, exhaustive on 3x3",
@@ -225,6 +226,7 @@ PROPS["C15"] = dict(
     bounded=[("c15_polygonize_small_grids", {"quick": 60, "thorough": 900, "jit": True}), ("c15_polygonize_random", {"quick": 40, "thorough": 400, "jit": True})],
 )
 PROPS["C05"] = dict(
+    producers=[("pyvc.wrapper_check", "wrapper_items")],
     level="exploration",
     technique="bounded: viewshed vs an O(n^2) evaluation of the stated line-of-sight model (exhaustive 3x3 prefix + random terrains); contract-level proofs for the geometric helpers the model is built from and for the local operations of the status tree (rotations keep the CLRS link structure and the augmented subtree maxima, node creation, key search, minimum, the successor-payload move of deletion as an extracted fragment)",
     not_decided=["equivalence of the red-black-tree angular sweep with the line-of-sight model (needs a sweep-line argument over a globally well-formed tree): bounded only",
